@@ -177,6 +177,8 @@ def run(F, R):
     for hid in sorted(helper_ids):
         hv = W.bv(hid)
         adds = [(bi, t) for bi, t in hv.calls() if lib.callee_is(t, "add_event")]
+        if not adds and _chain_form(R, W, c, hv):
+            continue
         if not R.floor("C10-R3", "add_event in the report helper", len(adds), 1):
             continue
         bi, t = adds[0]
@@ -323,3 +325,77 @@ def _ctxkey(ctx):
         parts.append(ctx.bv.body.get("item") or ctx.bv.id.split("::")[-2])
         ctx = ctx.parent
     return "<".join(parts[:3])
+
+
+def _chain_form(R, W, c, hv):
+    """The report helper written as an iterator chain:
+         apps.into_iter().filter_map(|app| <Some((app, next_versions.get(&app.id)..))>).fold(builder, |b, (app, nv)| b.add_event(app, Event{..}))
+    Returns True when the shape was recognised (and judged), False when it is something else."""
+    from .. import optnorm
+    folds = [(bi, t) for bi, t in hv.calls() if lib.callee_is(t, "std::iter::Iterator::fold") and len(t.get("args", [])) == 3]
+    for (fbi, ft) in folds:
+        clo2 = optnorm._closure_of(hv.trace_op(ft["args"][2]))
+        if clo2 is None or clo2[2] not in W.by_id:
+            continue
+        cb2 = W.bv(clo2[2])
+        adds2 = [(bi, t) for bi, t in cb2.calls() if lib.callee_is(t, "add_event")]
+        if len(adds2) != 1:
+            continue
+        src = lib.strip_refs(hv.trace_op(ft["args"][0]))
+        chain = []
+        x = src
+        f1 = None
+        while x[0] == "call":
+            nm = lib.norm(x[1]).split("::")[-1]
+            chain.append(nm)
+            if nm == "filter_map" and len(x[2]) == 2:
+                f1 = optnorm._closure_of(x[2][1])
+            x = lib.strip_refs(x[2][0]) if x[2] else ("undef",)
+        apps_src = lib.apath(x)
+        APP = ("const", {"s": "APP", "t": None})
+        inputs = W.by_id[hv.body["parent"]]["inputs"]
+        role = {}
+        for k, i in enumerate(inputs):
+            s_ = c.types[i]["s"]
+            if s_ == "protocol::request::Event":
+                role["EVENT"] = "param1.%d" % k
+            elif "HashMap" in s_:
+                role["NV"] = "param1.%d" % k
+            elif "Option<std::time::Duration>" in s_:
+                role["DUR"] = "param1.%d" % k
+            elif "App>" in s_ and ("IntoIterator" in s_ or "Vec<" in s_) or s_.endswith("App]"):
+                role["APPS"] = "param1.%d" % k
+        R.check("C10-R3", "helper-visits-every-app", chain == ["filter_map", "into_iter"] and f1 is not None and apps_src == role.get("APPS", "?"),
+                "fold over filter_map over every app of the list", "the report is built from %s over %s: apps can be skipped for another reason than a missing offer" % (chain, apps_src), lib.loc(hv, fbi))
+        if f1 is None or f1[2] not in W.by_id:
+            return True
+        cb1 = W.bv(f1[2])
+        body1 = optnorm.simplify(lib.subst_params(optnorm._ann(cb1), [f1, APP]))
+        lv = optnorm.leaves(W, cb1, body1)
+        somes = [l for l in lv if l[0] == "some"]
+        pair = None
+        if len(somes) == 1 and not [l for l in lv if l[0] == "other"]:
+            tp = lib.strip_refs(somes[0][1])
+            if tp[0] == "agg" and tp[1] == "tuple" and len(tp[3]) == 2:
+                pair = tp[3]
+        nvr = optnorm.canon(terms.render(cb1, pair[1], W, {})) if pair else "?"
+        want_nv = "get(%s, APP.id)@OK" % role.get("NV", "?")
+        R.check("C10-R3", "helper-filters-by-map", pair is not None and lib.strip_refs(pair[0]) == APP and nvr.replace("&", "").replace("*", "") == want_nv,
+                "an app is kept exactly when the offered-update map has an entry for its id", "the app filter yields %s for app APP (expected (APP, %s))" % (nvr[:100], want_nv), lib.loc(hv, fbi))
+        R.check("C10-R3", "helper-app-is-loop-item", pair is not None and lib.strip_refs(pair[0]) == APP, "event added to the app being iterated", "the filter pairs the offer with another app")
+        if pair is None:
+            return True
+        abi, at = adds2[0]
+        ACC = ("const", {"s": "ACC", "t": None})
+        tup = ("agg", "tuple", None, [APP, pair[1]], ["0", "1"])
+        def up(term):
+            return optnorm.simplify(lib.subst_params(terms.annotate_names(cb2, term), [clo2, ACC, tup]))
+        ev = optnorm.canon(terms.render(cb2, up(cb2.trace_op(at["args"][2])), W, {}))
+        appr = terms.render(cb2, up(cb2.trace_op(at["args"][1])), W, {})
+        exp = "Event{EVENT.event_type, EVENT.event_result, EVENT.errorcode, Some{to_string(APP.version)}, get(NV, APP.id)@OK, and_then(DUR, |$1| ok(try_into::<u64>(as_millis($1))))}"
+        for k, v in role.items():
+            exp = exp.replace(k, v)
+        norm = lambda z: z.replace("&", "").replace("*", "")
+        R.check("C10-R3", "helper-event-fields", norm(ev) == norm(optnorm.canon(exp)) and appr.replace("&", "").replace("*", "") == "APP", ev[:160], "the helper builds %s for %s, expected %s for APP" % (ev, appr, exp), lib.loc(cb2, abi))
+        return True
+    return False
